@@ -17,7 +17,9 @@
 (* hit counter; `ihits' the implicit rule's counter.  Positions are the     *)
 (* real 0-based positions; addresses / masks are the model's small          *)
 (* naturals (the harness inverts its embedding into IPv4), ports are the    *)
-(* real port numbers, protocols the real protocol names.                    *)
+(* real non-zero port numbers, protocols the real protocol names.  A real   *)
+(* rule port of None or NONE(0) - this code base's "no port" value - is     *)
+(* read back as unspecified (AnyN); see harness/rec_acl.py.                 *)
 EXTENDS Acl, TLC, TLCExt, Json, IOUtils
 
 Traces == JsonDeserialize(IOEnv.TRACE_FILE)
